@@ -279,6 +279,14 @@ def summarize(prop, h, tier, seed, cases, results, lemma_obs, wall):
             tail = '' if conf else ' no-failing-input-found'
             print(f'VIOLATION property={prop} replay={fn}{tail}')
             print(f'   obligation {name} refuted; witness: {json.dumps(wit[0]["inputs"], default=str)[:300] if wit else None}')
+    if tier != 'quick':
+        # the thorough tier explores as deep as solver and time budgets allow: a path whose feasibility (or an obligation whose validity) both solvers leave open within the
+        # load-sized retry budget is reported as not explored, it does not void the verdict on what was explored.  The quick tier stays strict: everything decided, or exit 2.
+        soft = [r for r in outside if r['outcome'] == 'undecided' and 'both solvers unknown' in str(r.get('note'))]
+        soft_ob = [o for o in undecided if 'both solvers unknown' in str(o.get('why'))]
+        if soft or soft_ob:
+            print(f'NOTE: {len(soft)} path(s) and {len(soft_ob)} obligation(s) were left open by both solvers within the retry budget and are not part of the verdict: ' + '; '.join(sorted({_case_repr(cases, r["case"]) for r in soft} | {o["name"] for o in soft_ob})[:6]))
+        outside = [r for r in outside if r not in soft]; undecided = [o for o in undecided if o not in soft_ob]
     if code == 0 and (undecided or outside or not mine):
         code = 2
         for o in undecided[:5]: print('UNDECIDED obligation', o['name'], o.get('why'))
